@@ -29,7 +29,9 @@ def sh(cmd, cwd=None, env=None, timeout=3600):
 def one(name):
     d = os.path.join(HERE, "seeded", name)
     meta = json.load(open(os.path.join(d, "meta.json")))
-    checks = meta.get("caught_by") or list(meta.get("checks", {}))
+    # every check that was run when the change was filed: the one of its own property first (a check that only caught
+    # a defect of the base tree at filing time must not stand in for it)
+    checks = sorted(set(meta.get("caught_by") or []) | set(meta.get("checks", {})), key=lambda c: (c != meta.get("property"), c))
     wt = "/tmp/reseed-%s" % name
     sh("git -C %s worktree remove --force %s" % (REPO, wt))
     rc, o = sh("git -C %s worktree add --detach %s HEAD" % (REPO, wt))
